@@ -7,17 +7,20 @@ Keywords == {"Break", "Default", "Func", "Interface", "Select", "Case", "Defer",
 Plain == {"Do", "do_it", "GetThing", "String", "Error", "Len", "New", "X"}
 M(n, k) == [name |-> n, kind |-> k]
 S(n, ms) == [name |-> n, methods |-> ms]
-D(p, ss, gp, dep) == [pkg |-> p, services |-> ss, gopkg |-> gp, deprecated |-> dep]
+\* sibling: the same plugin invocation also generates -- first -- another file, from another package, that declares
+\* services and methods with the same names (the v1 / v2 layout); what is generated for this file does not depend on it
+D(p, ss, gp, dep, sib) == [pkg |-> p, services |-> ss, gopkg |-> gp, deprecated |-> dep, sibling |-> sib]
 Pkgs == {"", "acme", "acme.ping.v1"}
 GoPkgs == {"example.com/gen/t;tpb", "example.com/gen/t"}
 \* one service, one method: every name class x kind x package form
-InitA == \E p \in Pkgs, n \in Plain \cup Keywords, k \in Kinds, sn \in {"Svc", "my_svc", "Type"} :
-           InitWith(D(p, <<S(sn, <<M(n, k)>>)>>, "example.com/gen/t;tpb", FALSE))
+InitA == \E p \in Pkgs, n \in Plain \cup Keywords, k \in Kinds, sn \in {"Svc", "my_svc", "Type"}, sib \in BOOLEAN :
+           /\ (sib => n \in Plain)
+           /\ InitWith(D(p, <<S(sn, <<M(n, k)>>)>>, "example.com/gen/t;tpb", FALSE, sib))
 \* several methods / services, deprecation, go_package forms
-InitB == \E p \in Pkgs, gp \in GoPkgs, dep \in BOOLEAN, k1 \in Kinds, k2 \in Kinds :
-           InitWith(D(p, <<S("Alpha", <<M("One", k1), M("Two", k2), M("Import", "unary")>>), S("beta_svc", <<M("Go", k2)>>)>>, gp, dep))
+InitB == \E p \in Pkgs, gp \in GoPkgs, dep \in BOOLEAN, k1 \in Kinds, k2 \in Kinds, sib \in BOOLEAN :
+           InitWith(D(p, <<S("Alpha", <<M("One", k1), M("Two", k2), M("Import", "unary")>>), S("beta_svc", <<M("Go", k2)>>)>>, gp, dep, sib))
 \* a file without services
-InitC == \E p \in Pkgs : InitWith(D(p, <<>>, "example.com/gen/t;tpb", FALSE))
+InitC == \E p \in Pkgs, sib \in BOOLEAN : InitWith(D(p, <<>>, "example.com/gen/t;tpb", FALSE, sib))
 MCInit == InitA \/ InitB \/ InitC
 MCSpec == MCInit /\ [][Next]_vars
 GenSpec == MCInit /\ [][FALSE]_vars
